@@ -67,12 +67,24 @@ def ops_roundtrip(rng, d, which, cats=DR.CATS):
                 ops.append({"op": "IAdd", "a": 2, "b": 3})
         return ops, 4
     # pickle: clone stays live; feed clone and original the same further data
+    numpy_ok = D.has_quantity(d) and not any(n.get("form") in ("def", "str") or "qe" in n for _, n in D.walk(d)) \
+        and not any(n["k"] == "Bag" and n["range"] == "S" for _, n in D.walk(d))
     ops.append({"op": "Pickle", "t": 3, "a": 1})
     ops.append({"op": "Eq", "a": 1, "b": 3, "must": True})
     same = True
     for _ in range(rng.randint(1, 4)):
         r = rng.random()
-        if r < 0.6:
+        if r < 0.25 and numpy_ok:
+            # the clone and the original receive the same batch (vectorised)
+            rows = [DR.Alphabet(d, DR.CATS_NP).datum(rng) for _ in range(rng.randint(1, 3))]
+            ev = {"op": "FillNumpy", "rows": rows, "wf": rng.choice(["one", "scalar", "array"])}
+            if ev["wf"] == "scalar":
+                ev["wsc"] = rng.choice(DR.POSWEIGHTS)
+            elif ev["wf"] == "array":
+                ev["ws"] = [rng.choice(DR.POSWEIGHTS) for _ in rows]
+            ops.append(dict(ev, s=1))
+            ops.append(dict(ev, s=3))
+        elif r < 0.6:
             x, w = al.datum(rng), rng.choice(DR.POSWEIGHTS)
             ops.append({"op": "Fill", "s": 1, "x": x, "w": w})
             ops.append({"op": "Fill", "s": 3, "x": x, "w": w})
@@ -260,6 +272,16 @@ def variants(rng, d):
     return out
 
 
+def nested_sparse_tree(rng):
+    """sparse containers inside sparse containers: bins present on one side only are adopted, so incompatibilities
+    below them are only found if the library compares the sub-aggregators explicitly"""
+    leaf = rng.choice([D.Bin(2, 0, 4, "y"), D.Bin(2, 0, 4, "y", D.Sum("x")), D.Sum("y"), D.CentrallyBin([0, 2, 4], "y"),
+                       D.Stack([1, 3], "y"), D.Bag("y", "N")])
+    inner = rng.choice([D.Categorize("c", leaf), D.SparselyBin(2, "y", leaf), D.SparselyBin(1, "x", leaf)])
+    return rng.choice([D.Categorize("c", inner), D.SparselyBin(2, "x", inner), D.Bin(2, 0, 4, "x", inner),
+                       D.Label(a=inner, b=inner)])
+
+
 def ops_incompat(rng, d, d2):
     al, al2 = DR.Alphabet(d), DR.Alphabet(d2)
     ops = [{"op": "New", "s": 1, "d": d}, {"op": "New", "s": 2, "d": d2}]
@@ -267,6 +289,9 @@ def ops_incompat(rng, d, d2):
         for _ in range(rng.randint(1, 3)):
             s = rng.choice([1, 2])
             ops.append({"op": "Fill", "s": s, "x": (al if s == 1 else al2).datum(rng), "w": rng.choice(DR.POSWEIGHTS)})
+    for s in (1, 2):
+        if rng.random() < 0.3:   # operands that went through JSON (no value templates any more)
+            ops.append({"op": "Reload", "t": s, "a": s, "via": "dict"})
     order = rng.sample(["ab", "ba", "iab", "iba"], 4)
     for o in order[: rng.randint(1, 4)]:
         if o == "ab":
@@ -314,6 +339,10 @@ def ops_failing(rng, d):
             x["fa"] = rng.choice(fids)
             x["fm"] = rng.choice(["raise", "wrong"])
         ops.append({"op": "Fill", "s": 1, "x": x, "w": rng.choice(DR.POSWEIGHTS + [Q(0)])})
+        if x["fa"] and rng.random() < 0.6:
+            # the same record again, good this time: it takes the same route (e.g. into the bin the failed fill
+            # would have created)
+            ops.append({"op": "Fill", "s": 1, "x": dict(x, fa="", fm=""), "w": rng.choice(DR.POSWEIGHTS)})
     return ops, 1, d
 
 
